@@ -33,7 +33,8 @@ vars == <<l, src, m, skip, bad, malformed, ok>>
 \* only the constant-level operators of Versions are used (layouts, Parse, the Do* steps of the machine)
 V == INSTANCE Versions WITH Modes <- {}, Patterns <- {}, IAs <- {}, Containers <- {}, MaxEntries <- 0, MaxAux <- 0,
                             SmallEntries <- 0, SmallAux <- 0, BigCombos <- {}, NeedMode <- "rev", VsLens <- {},
-                            phase <- l, ch <- l, obj <- l, img <- l, exp <- l, sec <- l, wk <- l
+                            Disciplines <- {}, SessPatterns <- {}, MaxCalls <- 0, FreeCombos <- {}, FreeIAs <- {},
+                            phase <- l, ch <- l, obj <- l, img <- l, exp <- l, sec <- l, wk <- l, sess <- l
 
 Log == ndJsonDeserialize(IOEnv.TRACE)
 
